@@ -66,7 +66,12 @@ class RoleSet:
 
     @staticmethod
     def from_dict(roles: Dict[str, Role]):
-        """# Convert a dict of `Role`s into a `RoleSet`."""
+        """# Convert a dict of `Role`s into a `RoleSet`.
+        Roles created without a name, e.g. by `Roles(n)`, take their key as their name.
+        (Left un-named they would all compare equal, and every role-directed Signal would be driven by every role.)"""
+        for key, role in roles.items():
+            if role.name is None:
+                role.name = key
         return RoleSet(name=None, inner=roles)
 
     """
